@@ -10,6 +10,7 @@
 mod corpus;
 mod gen;
 mod input;
+mod interleave;
 mod minimise;
 mod model;
 mod oracle;
@@ -48,6 +49,11 @@ pub struct Replay {
     pub observed_digest: String,
     pub signature: serde_json::Value,
     pub minimised: serde_json::Value,
+    /// for violations that only show when several parses are interleaved: all members and the schedule
+    #[serde(default)]
+    pub group: Option<Vec<Scenario>>,
+    #[serde(default)]
+    pub schedule: Option<Vec<u8>>,
 }
 
 pub fn mode_for(prop: &str) -> &'static str {
@@ -231,7 +237,25 @@ pub fn make_replay(prop: &str, sc_orig: &Scenario, sc_min: &Scenario, f: &Failur
             "to": minimise::size(sc_min),
             "steps": steps
         }),
+        group: None,
+        schedule: None,
     }
+}
+
+/// The scenarios and schedule of run `i` when it is a group run (several parses interleaved on
+/// caller threads), else None. A pure function of (seed, i).
+fn group_of(seed: u64, i: u64, mode: &'static str) -> Option<(Vec<Scenario>, Vec<u8>)> {
+    let rs = run_seed(seed, i);
+    let mut g = simcore::Rng::stream(rs, "group");
+    if !g.pct(6) {
+        return None;
+    }
+    let n = g.range(2, 3);
+    let recvs = schema::recvs();
+    let scs = (0..n).map(|k| gen::generate(simcore::rng::splitmix64(rs ^ (k as u64 + 1).wrapping_mul(0xD6E8_FEB8_6659_FD93)), mode, recvs)).collect();
+    let mut s = simcore::Rng::stream(rs, "sched");
+    let schedule = (0..s.range(0, 60)).map(|_| s.below(n) as u8).collect();
+    Some((scs, schedule))
 }
 
 fn arg<'a>(args: &'a [String], name: &str) -> Option<&'a str> {
@@ -282,6 +306,41 @@ fn cmd_batch(args: &[String], sweep_mode: bool) -> i32 {
         &stop,
         || Acc { stats: Stats::new(), failures: Vec::new(), harness: Vec::new(), digests: Vec::new(), samples: BTreeMap::new() },
         |i, acc: &mut Acc| {
+            // a fraction of the seeded runs are groups of parses interleaved on caller threads
+            if !sweep_mode {
+                if let Some((scs, schedule)) = group_of(seed, i, mode) {
+                    let gr = interleave::run_group(&scs, &schedule);
+                    acc.stats.inc("interleaved_groups");
+                    acc.stats.add("interleaved_parses", scs.len() as u64);
+                    acc.stats.add("interleaved_context_switches", gr.schedule_taken.windows(2).filter(|w| w[0] != w[1]).count() as u64);
+                    acc.stats.add("interleaved_steps_while_another_parse_is_mid_unwind", gr.overlap_events);
+                    let mut f = Fnv::new();
+                    f.bytes(&gr.schedule_taken);
+                    acc.stats.distinct("interleaving", f.finish());
+                    let mut digest = Fnv::new();
+                    for (sc, j) in scs.iter().zip(&gr.judged) {
+                        if let Some(h) = &j.harness_error {
+                            acc.harness.push((i, h.clone()));
+                            stop.store(true, Ordering::Relaxed);
+                            return;
+                        }
+                        record_stats(&mut acc.stats, sc, j);
+                        digest.u64(outcome_digest(j));
+                        if let Some(f) = relevant(&prop, mode, j).into_iter().next() {
+                            acc.failures.push((i, f, sc.clone()));
+                            let mut n = nfail.lock().unwrap();
+                            *n += 1;
+                            if *n >= max_failures {
+                                stop.store(true, Ordering::Relaxed);
+                            }
+                        }
+                    }
+                    if want_digests.is_some() {
+                        acc.digests.push((i, scenario_digest(&scs[0]), digest.finish(), gr.judged.iter().any(|j| !j.failures.is_empty())));
+                    }
+                    return;
+                }
+            }
             let sc = if sweep_mode { sweep_cases[i as usize].clone() } else { gen::generate(run_seed(seed, i), mode, recvs) };
             let j = run::run(&sc, recvs);
             if let Some(h) = &j.harness_error {
@@ -354,8 +413,22 @@ fn cmd_batch(args: &[String], sweep_mode: bool) -> i32 {
         if !seen_sig.insert(sig) || replays.len() >= max_failures {
             continue;
         }
-        let (min, steps) = minimise::minimise(&prop, sc, &f.rule, 1500);
         let idx = if sweep_mode { format!("sweep{}", i) } else { i.to_string() };
+        let alone = run::run(sc, recvs);
+        let fails_alone = relevant(&prop, &sc.mode, &alone).iter().any(|x| x.rule == f.rule);
+        if !fails_alone {
+            if let (false, Some((scs, schedule))) = (sweep_mode, group_of(seed, *i, mode)) {
+                // only under interleaving: keep the whole group and its schedule, unminimised
+                let mut rp = make_replay(&prop, sc, sc, f, Some(seed), Some(idx), 0);
+                rp.detail = format!("{} [fails only when interleaved with the other parses of its group]", f.detail);
+                rp.rule = f.rule.clone();
+                rp.group = Some(scs);
+                rp.schedule = Some(schedule);
+                replays.push(rp);
+                continue;
+            }
+        }
+        let (min, steps) = minimise::minimise(&prop, sc, &f.rule, 1500);
         replays.push(make_replay(&prop, sc, &min, f, Some(seed), Some(idx), steps));
     }
     let distinct: BTreeMap<String, u64> = stats.sets.iter().map(|(k, v)| (k.clone(), v.len() as u64)).collect();
@@ -387,6 +460,22 @@ fn cmd_replay(path: &str) -> i32 {
     let text = std::fs::read_to_string(path).expect("replay file readable");
     let rp: Replay = serde_json::from_str(&text).expect("replay file parses");
     let recvs = schema::recvs();
+    if let (Some(group), Some(schedule)) = (&rp.group, &rp.schedule) {
+        let gr = interleave::run_group(group, schedule);
+        let mut bad = false;
+        for (sc, j) in group.iter().zip(&gr.judged) {
+            for f in relevant(&rp.property, &sc.mode, j) {
+                println!("rule={} receiver={} {}", f.rule, sc.receiver, f.detail);
+                bad = true;
+            }
+        }
+        if bad {
+            println!("VIOLATION property={} replay={}", rp.property, path);
+            return 1;
+        }
+        println!("no violation: the interleaved group of {} satisfies every {} rule on this tree", path, rp.property);
+        return 0;
+    }
     let j = run::run(&rp.scenario, recvs);
     if let Some(h) = j.harness_error {
         println!("HARNESS-ERROR: {}", h);
@@ -448,7 +537,17 @@ fn cmd_minimise_isolated(args: &[String]) -> i32 {
         }
     } else {
         let index: u64 = arg(args, "--index").map(|s| s.parse().expect("--index")).unwrap_or(0);
-        (gen::generate(run_seed(seed, index), mode_for(&prop), recvs), index.to_string())
+        match group_of(seed, index, mode_for(&prop)) {
+            // a group run: the member that kills a process on its own, if any
+            Some((scs, _)) => match scs.into_iter().find(|m| minimise::dies_in_child(&prop, m)) {
+                Some(m) => (m, index.to_string()),
+                None => {
+                    println!("{}", json!({"reproduced": false}));
+                    return 0;
+                }
+            },
+            None => (gen::generate(run_seed(seed, index), mode_for(&prop), recvs), index.to_string()),
+        }
     };
     if !minimise::dies_in_child(&prop, &sc) {
         println!("{}", json!({"reproduced": false}));
@@ -472,6 +571,8 @@ fn cmd_minimise_isolated(args: &[String]) -> i32 {
         observed_digest: String::new(),
         signature: json!({"rule": "C07.R3", "receiver": min.receiver}),
         minimised: json!({"from": minimise::size(&sc), "to": minimise::size(&min), "steps": steps, "one_child_process_per_candidate": true}),
+        group: None,
+        schedule: None,
     };
     println!("{}", json!({"reproduced": true, "replay": rp}));
     1
